@@ -35,7 +35,7 @@ SPECIAL = ['"', "'", '\\', '[', ']', '{', '}', '(', ')', '#', '%', ' ', '\t', '\
 PLAIN = list('abcxyzKV019_')
 NONASCII = ['é', 'ж', '€', '名', '𝄞', '😀', 'ß']
 ATTR_TOKEN = re.compile(r'(?:^|[^_a-zA-Z0-9])[ab]\.[_a-zA-Z]')
-DIRECT_POOL = ['u_name', 'u_age', 'City', 'x1', 'col_a', 'Zip', '_id', 'u_v', 'weight_kg', 'Q']
+DIRECT_POOL = ['u_name', 'u_age', 'City', 'x1', 'col_a', 'Zip', '_id', 'u_v', 'weight_kg', 'Q', 'a1', 'a2', 'a3', 'b1', 'a10', 'aNR_', 'NR_']
 
 
 def plan(tier):
